@@ -303,6 +303,25 @@ func gen(r *rand.Rand, idx int) *gscript {
 		kinds = append(kinds, "disk-change")
 	}
 	comment := sb.String()
+	{
+		// every fourth script text has CRLF line endings on some of its lines (a carriage return at the
+		// end of a command line is white space to the interpreter); the rewrite must keep them as they are.
+		// Decided from the text itself so that the PRNG stream of the generator is left alone.
+		h := uint32(2166136261)
+		for i := 0; i < len(comment); i++ {
+			h = (h ^ uint32(comment[i])) * 16777619
+		}
+		if h%4 == 0 {
+			lines := strings.SplitAfter(comment, "\n")
+			for i, l := range lines {
+				if strings.HasSuffix(l, "\n") && (h>>(8+uint(i)%16))&1 == 1 {
+					lines[i] = l[:len(l)-1] + "\r\n"
+				}
+			}
+			comment = strings.Join(lines, "")
+			kinds = append(kinds, "crlf-script-text")
+		}
+	}
 	before := &xt.Archive{Comment: []byte(comment)}
 	order := append([]golden{}, golds...)
 	pos := r.Intn(len(order) + 1)
